@@ -237,7 +237,7 @@ func checkOptionalGroupGuards(p *core.Program, r *core.Report) {
 	okSum := false
 	for _, rv := range core.ReturnValues(hf, 0) {
 		if c, ok := rv.V.(*ssa.Call); ok && core.NameIs(core.CalleeName(c), bp7+".BundleControlFlags.Has") {
-			if k, ok := core.ConstInt(core.CallArgs(c)[0]); ok && k == fragFlag && pathEndsWith(core.CallRecv(c), "BundleControlFlags") {
+			if k, ok := core.ConstInt(core.Arg(c, 0)); ok && k == fragFlag && pathEndsWith(core.CallRecv(c), "BundleControlFlags") {
 				okSum = true
 			}
 		}
